@@ -219,6 +219,7 @@ func runC10(p *eng.Prog, r *eng.Report, tier string) {
 	if sv != nil {
 		g := sv.Graph()
 		serveCtxReread(c, "C10.4", sv)
+		serveCtxRootedInBackground(c, "C10.13")
 		okDefer := false
 		for _, d := range g.Defers {
 			lit, ok := ast.Unparen(d.Call.Fun).(*ast.FuncLit)
@@ -472,6 +473,32 @@ func closerTypestate(c *cx, id string) {
 		}
 		c.r.Floor(id, "constructors of "+t.typ, n, 1)
 		c.r.Ceil(id, "constructors of "+t.typ, n, 1)
+	}
+	// the err field is the "lock already released" marker: Close returns
+	// without unlocking when it is set. Every store of it comes after the
+	// release (direct or deferred) in the same function - a store anywhere else
+	// (a sticky write error, say) makes the next Close keep the session lock.
+	for _, cls := range []string{"xmpp.lockWriteCloser.err", "xmpp.lockReadCloser.err"} {
+		n := 0
+		for _, f := range c.allFns() {
+			for _, w := range f.FieldWrites(cls) {
+				n++
+				g := f.Graph()
+				pt, _ := g.Where(w.Stmt)
+				isUnlock := func(q eng.Point, nd ast.Node) bool {
+					found := false
+					ast.Inspect(nd, func(x ast.Node) bool {
+						if cc, ok := x.(*ast.CallExpr); ok && f.CalleeID(cc) == "sync.Locker.Unlock" {
+							found = true
+						}
+						return !found
+					})
+					return found
+				}
+				c.r.Check(id, f, "released marker "+cls+" stored", "O: the marker that makes Close return without unlocking is stored only after the session lock was released (or its release deferred) in the same call", w.Stmt.Pos(), g.MustPassBefore(g.Entry(), pt, isUnlock, nil) || unlockFollows(g, pt, isUnlock), "the marker is set while the lock is still held: the next Close returns at its guard and the session lock is never released")
+			}
+		}
+		c.r.Floor(id, "stores to "+cls, n, 1)
 	}
 	for _, name := range []string{"(*lockWriteCloser).Close", "(*lockReadCloser).Close"} {
 		f := c.fn(id, "", name)
@@ -844,4 +871,59 @@ func closedBitBeforeWrites(c *cx, id string) {
 	}
 	c.r.Floor(id, "functions writing through the session encoder", nfun, 6)
 
+}
+
+// unlockFollows: every exit reachable from the point passes a node satisfying
+// isUnlock on the way.
+func unlockFollows(g *eng.Graph, pt eng.Point, isUnlock func(eng.Point, ast.Node) bool) bool {
+	var exits []eng.Point
+	for _, rs := range g.Returns {
+		if p, ok := g.Where(rs); ok {
+			exits = append(exits, p)
+		}
+	}
+	exits = append(exits, g.Exits()...)
+	for _, ex := range exits {
+		if g.Reachable(g.After(pt), ex, nil, isUnlock) {
+			return false
+		}
+	}
+	return true
+}
+
+// serveCtxRootedInBackground (C10.13): Serve returns for the peer's end of
+// stream, a stream error, or the close deadline - nothing else. The context
+// its loop polls (Session.in.ctx) therefore has no parent that somebody else
+// can end: every store of it is context.WithCancel / WithDeadline /
+// WithTimeout of context.Background(). A context derived from the one that
+// was passed to the negotiation ends Serve when the dial timeout's cancel
+// function runs.
+func serveCtxRootedInBackground(c *cx, id string) {
+	n := 0
+	for _, f := range c.allFns() {
+		for _, w := range f.FieldWrites("xmpp.Session.in.ctx") {
+			n++
+			ok, why := false, "stored from a tuple or a non-call expression"
+			var rhs ast.Expr = w.RHS
+			if rhs == nil {
+				if as, isAs := w.Stmt.(*ast.AssignStmt); isAs && len(as.Rhs) == 1 {
+					rhs = as.Rhs[0]
+				}
+			}
+			if cl, isCall := ast.Unparen(rhs).(*ast.CallExpr); rhs != nil && isCall {
+				cid := f.CalleeID(cl)
+				if (cid == "context.WithCancel" || cid == "context.WithDeadline" || cid == "context.WithTimeout") && len(cl.Args) >= 1 {
+					if pc, isCall := ast.Unparen(cl.Args[0]).(*ast.CallExpr); isCall && f.CalleeID(pc) == "context.Background" {
+						ok = true
+					} else {
+						why = "the parent is " + types.ExprString(cl.Args[0]) + ", not context.Background()"
+					}
+				} else {
+					why = "stored from " + cid
+				}
+			}
+			c.r.Check(id, f, "serve context stored", "K: the context the serve loop polls is derived from context.Background() only (its end means: the close deadline passed or the session was closed)", w.Stmt.Pos(), ok, why+": Serve ends for a reason other than the peer's end of stream, a stream error or the close deadline")
+		}
+	}
+	c.r.Floor(id, "stores to Session.in.ctx", n, 2)
 }
